@@ -8,6 +8,8 @@ import (
 	"fmt"
 	"os"
 	"path/filepath"
+	"sync"
+	"sync/atomic"
 	"syscall"
 	"time"
 )
@@ -17,7 +19,8 @@ const (
 	maxViolsPerClass = 5
 	maxViols         = 40
 	samplesPerClass  = 2
-	slotSize         = 1 << 20
+	slotSize         = 1 << 18 // per record; one record per judging goroutine
+	maxWorkers       = 16
 )
 
 // Violation is one observed violation.
@@ -58,6 +61,7 @@ type ShardResult struct {
 }
 
 type shardStats struct {
+	mu         sync.Mutex
 	res        ShardResult
 	fps        map[uint64]struct{}
 	violsClass map[string]int
@@ -107,6 +111,8 @@ func render(p *Prop, class string, key []byte) interface{} {
 }
 
 func (s *shardStats) record(p *Prop, class string, key []byte, o *Obs) {
+	s.mu.Lock()
+	defer s.mu.Unlock()
 	r := &s.res
 	r.Evaluations++
 	r.ByClass[class]++
@@ -131,12 +137,14 @@ func (s *shardStats) record(p *Prop, class string, key []byte, o *Obs) {
 		}
 	}
 	if len(o.out) > 0 {
+		// order-independent: xor of per-case digests (cases may be judged on several goroutines)
 		h := sha256.New()
-		h.Write(s.digest[:])
 		h.Write([]byte(class))
 		h.Write(key)
 		h.Write(o.out)
-		copy(s.digest[:], h.Sum(nil))
+		for i, b := range h.Sum(nil) {
+			s.digest[i] ^= b
+		}
 	}
 	if s.sampClass[class] < samplesPerClass {
 		s.sampClass[class]++
@@ -173,23 +181,22 @@ func openSlot(path string) (*slot, error) {
 		return nil, err
 	}
 	defer f.Close()
-	if err := f.Truncate(slotSize); err != nil {
+	if err := f.Truncate(slotSize * maxWorkers); err != nil {
 		return nil, err
 	}
-	mem, err := syscall.Mmap(int(f.Fd()), 0, slotSize, syscall.PROT_READ|syscall.PROT_WRITE, syscall.MAP_SHARED)
+	mem, err := syscall.Mmap(int(f.Fd()), 0, slotSize*maxWorkers, syscall.PROT_READ|syscall.PROT_WRITE, syscall.MAP_SHARED)
 	if err != nil {
 		return nil, err
 	}
 	return &slot{mem: mem}, nil
 }
 
-func (s *slot) begin(class string, key []byte) {
+func (s *slot) begin(worker int, class string, key []byte) {
 	if s == nil {
 		return
 	}
-	s.seq++
-	m := s.mem
-	binary.LittleEndian.PutUint64(m[0:], s.seq)
+	m := s.mem[worker*slotSize : (worker+1)*slotSize]
+	binary.LittleEndian.PutUint64(m[0:], atomic.AddUint64(&s.seq, 1))
 	if 24+len(class)+len(key) > len(m) {
 		key = key[:len(m)-24-len(class)]
 	}
@@ -200,29 +207,39 @@ func (s *slot) begin(class string, key []byte) {
 	binary.LittleEndian.PutUint32(m[8:], 1) // in flight
 }
 
-func (s *slot) end() {
+func (s *slot) end(worker int) {
 	if s == nil {
 		return
 	}
-	binary.LittleEndian.PutUint32(s.mem[8:], 0)
+	binary.LittleEndian.PutUint32(s.mem[worker*slotSize+8:], 0)
 }
 
-// readSlot returns the case that was in flight when the process stopped.
-func readSlot(path string) (inflight bool, seq uint64, class string, key []byte) {
-	m, err := os.ReadFile(path)
-	if err != nil || len(m) < 24 {
-		return false, 0, "", nil
+type inflightCase struct {
+	seq   uint64
+	class string
+	key   []byte
+}
+
+// readSlot returns the cases that were in flight when the process stopped (one per judging goroutine at most).
+func readSlot(path string) []inflightCase {
+	all, err := os.ReadFile(path)
+	if err != nil {
+		return nil
 	}
-	seq = binary.LittleEndian.Uint64(m[0:])
-	inflight = binary.LittleEndian.Uint32(m[8:]) == 1
-	cl := int(binary.LittleEndian.Uint32(m[12:]))
-	kl := int(binary.LittleEndian.Uint32(m[16:]))
-	if 20+cl+kl > len(m) {
-		return false, seq, "", nil
+	var out []inflightCase
+	for w := 0; (w+1)*slotSize <= len(all); w++ {
+		m := all[w*slotSize : (w+1)*slotSize]
+		if binary.LittleEndian.Uint32(m[8:]) != 1 {
+			continue
+		}
+		cl := int(binary.LittleEndian.Uint32(m[12:]))
+		kl := int(binary.LittleEndian.Uint32(m[16:]))
+		if 20+cl+kl > len(m) {
+			continue
+		}
+		out = append(out, inflightCase{binary.LittleEndian.Uint64(m[0:]), string(m[20 : 20+cl]), append([]byte(nil), m[20+cl:20+cl+kl]...)})
 	}
-	class = string(m[20 : 20+cl])
-	key = append([]byte(nil), m[20+cl:20+cl+kl]...)
-	return
+	return out
 }
 
 // ---------------------------------------------------------------------------
@@ -239,7 +256,27 @@ func RunChild(p *Prop, tier string, seed int64, shard, nshards int, build, dir s
 	g := &Gen{Tier: tier, Seed: seed, Shard: shard, NShards: nshards, Build: build,
 		Rng: SubRng(seed, p.ID, fmt.Sprint(shard)), prop: p, st: st, slot: sl}
 	t0 := time.Now()
+	var wg sync.WaitGroup
+	if n := p.Parallel; n > 1 {
+		if n > maxWorkers {
+			n = maxWorkers
+		}
+		g.work = make(chan caseItem, 4*n)
+		for w := 0; w < n; w++ {
+			wg.Add(1)
+			go func(w int) {
+				defer wg.Done()
+				for it := range g.work {
+					g.run(w, it.class, it.key)
+				}
+			}(w)
+		}
+	}
 	p.Gen(g)
+	if g.work != nil {
+		close(g.work)
+		wg.Wait()
+	}
 	st.res.WallS = time.Since(t0).Seconds()
 	st.res.Completed = true
 	st.res.OutDigest = hex.EncodeToString(st.digest[:])
